@@ -144,7 +144,14 @@ class Facts:
         return self._callers
 
     def callers_of(self, path):
-        return self.callers().get(path, [])
+        """[(Body, bb)] of call sites whose declared or resolved callee is `path` (only bodies mentioning it are parsed)."""
+        key = json.dumps(path)
+        out = []
+        for b in self.bodies.mentioning(key):
+            for bb, call in b.calls():
+                if path in call.names():
+                    out.append((b, bb))
+        return out
 
 
 class AnchorLost(Exception):
